@@ -418,10 +418,11 @@ package keyvalue
 //@   nopanic
 
 //@ func (f *file) ReadBlob(length int) (b blob.Blob, n int, err error)
-//@   props C02 C17
+//@   props C02 C17 C14
 //@   requires fileInv(f) && hDataOK(f)
 //@   modifies fRec(f).data, fRec(f).dataErr, fRec(f).dataDone, oncedone(fRec(f).dataOnce), f.offset
 //@   ensures "closed" implies(f.closed, b == nil && n == 0 && closedError(err, f) && f.offset == old(f.offset))
+//@   ensures "data-error" [C14] implies(!f.closed && old(hDataErr(f)) != nil, b == nil && n == 0 && err == old(hDataErr(f)))
 //@   ensures "count" implies(old(readOK(f, f.offset)) && old(f.offset) < blob.blobLen(old(hData(f))) && length >= 0,
 //@                     n == min(length, blob.blobLen(old(hData(f))) - old(f.offset)) && blob.isViewOf(b, old(hData(f)), old(f.offset), old(f.offset) + n))
 //@   ensures "offset" f.offset == old(f.offset) + n && n >= 0
@@ -1235,12 +1236,12 @@ package keyvalue
 
 //@ func (fs *FS) Rename(oldname string, newname string) (err error)
 //@   props C01 C03 C04 C05 C14
-//@   requires fsMem(fs)
+//@   requires fsOK(fs)
 //@   use dirValid(newname)
 //@   use childDirAll(oldname)
 //@   dispatch hackpadfs.FileInfo fileInfo
 //@   dispatch FileRecord *fileData *runOnceFileRecord mem.fileRecord
-//@   dispatch Transaction *mem.transaction
+//@   dispatch Transaction *mem.transaction *unsafeSerialTransaction
 //@   modifies world(), mapOf(ms(fs).records), held(ms(fs).mu)
 //@   propagates [C14 C01] Rename
 //@   propagates [C14 C01] setFile
@@ -1249,29 +1250,31 @@ package keyvalue
 //@   propagates [C14] Data
 //@   loop 1 modifies mapOf(ms(fs).records), held(ms(fs).mu), world()
 //@   loop 1 invariant "children-so-far-moved" !failed("Rename") && !failed("setFile") && !failed("setFileTxn") && !failed("ReadDirNames") && !failed("Data")
-//@   loop 1 invariant "inv" fsMem(fs) && VP(oldname) && VP(newname) && rangeindex >= -1 && rangeindex < max(len(files), 1) && (len(files) > 0 || rangeindex == -1) && world() == old(world())
-//@   ensures "gate" [C04 C05] implies(!VP(oldname) || !VP(newname), linkErr(err, oldname, newname) && errIs(err, hackpadfs.ErrInvalid) && memSame(fs) && world() == old(world()))
-//@   ensures "root" [C03] implies(rnValid(oldname, newname) && oldname == "." && newname != ".", linkErr(err, oldname, newname) && memSame(fs))
-//@   ensures "missing-source" [C01 C05] implies(rnValid(oldname, newname) && !old(kvHas(fs, oldname)), linkErr(err, oldname, newname) && errIs(err, hackpadfs.ErrNotExist) && memSame(fs))
-//@   ensures "same-file" [C01] implies(rnValid(oldname, newname) && old(rnSrcFile(fs, oldname)) && oldname == newname, err == nil && memSame(fs))
-//@   ensures "dest-is-dir" [C01 C03 C05] implies(rnValid(oldname, newname) && old(kvHas(fs, oldname)) && old(kvHas(fs, newname)) && old(memIsDir(fs, newname)) && !(oldname == newname && !old(memIsDir(fs, oldname))),
+//@   loop 1 invariant "inv" fsOK(fs) && VP(oldname) && VP(newname) && rangeindex >= -1 && rangeindex < max(len(files), 1) && (len(files) > 0 || rangeindex == -1) && implies(isMem(fs), world() == old(world()))
+//@   ensures "gate" [C04 C05] implies(isMem(fs) && !VP(oldname) || !VP(newname), linkErr(err, oldname, newname) && errIs(err, hackpadfs.ErrInvalid) && memSame(fs) && world() == old(world()))
+//@   ensures "root" [C03] implies(isMem(fs) && rnValid(oldname, newname) && oldname == "." && newname != ".", linkErr(err, oldname, newname) && memSame(fs))
+//@   ensures "missing-source" [C01 C05] implies(isMem(fs) && rnValid(oldname, newname) && !old(kvHas(fs, oldname)), linkErr(err, oldname, newname) && errIs(err, hackpadfs.ErrNotExist) && memSame(fs))
+//@   ensures "same-file" [C01] implies(isMem(fs) && rnValid(oldname, newname) && old(rnSrcFile(fs, oldname)) && oldname == newname, err == nil && memSame(fs))
+//@   ensures "dest-is-dir" [C01 C03 C05] implies(isMem(fs) && rnValid(oldname, newname) && old(kvHas(fs, oldname)) && old(kvHas(fs, newname)) && old(memIsDir(fs, newname)) && !(oldname == newname && !old(memIsDir(fs, oldname))),
 //@                     linkErr(err, oldname, newname) && errIs(err, hackpadfs.ErrExist) && memSame(fs))
-//@   ensures "dir-onto-existing" [C01 C03 C05] implies(rnValid(oldname, newname) && oldname != "." && old(rnSrcDir(fs, oldname)) && old(kvHas(fs, newname)),
+//@   ensures "dir-onto-existing" [C01 C03 C05] implies(isMem(fs) && rnValid(oldname, newname) && oldname != "." && old(rnSrcDir(fs, oldname)) && old(kvHas(fs, newname)),
 //@                     linkErr(err, oldname, newname) && errIs(err, hackpadfs.ErrExist) && memSame(fs))
-//@   ensures "into-subtree" [C01 C03 C05] implies(rnValid(oldname, newname) && oldname != "." && old(rnSrcDir(fs, oldname)) && !old(kvHas(fs, newname)) && hasPrefix(newname, oldname + "/"),
+//@   ensures "into-subtree" [C01 C03 C05] implies(isMem(fs) && rnValid(oldname, newname) && oldname != "." && old(rnSrcDir(fs, oldname)) && !old(kvHas(fs, newname)) && hasPrefix(newname, oldname + "/"),
 //@                     linkErr(err, oldname, newname) && errIs(err, hackpadfs.ErrInvalid) && memSame(fs))
-//@   ensures "no-parent" [C01 C03 C05] implies(rnValid(oldname, newname) && oldname != "." && old(kvHas(fs, oldname)) && oldname != newname && !old(kvHas(fs, newname)) && !hasPrefix(newname, oldname + "/") && !old(kvHas(fs, pdir(newname))),
+//@   ensures "no-parent" [C01 C03 C05] implies(isMem(fs) && rnValid(oldname, newname) && oldname != "." && old(kvHas(fs, oldname)) && oldname != newname && !old(kvHas(fs, newname)) && !hasPrefix(newname, oldname + "/") && !old(kvHas(fs, pdir(newname))),
 //@                     linkErr(err, oldname, newname) && errIs(err, hackpadfs.ErrNotExist) && memSame(fs))
-//@   ensures "parent-not-dir" [C01 C03 C05] implies(rnValid(oldname, newname) && oldname != "." && old(kvHas(fs, oldname)) && oldname != newname && !(old(kvHas(fs, newname)) && old(memIsDir(fs, newname))) &&
+//@   ensures "parent-not-dir" [C01 C03 C05] implies(isMem(fs) && rnValid(oldname, newname) && oldname != "." && old(kvHas(fs, oldname)) && oldname != newname && !(old(kvHas(fs, newname)) && old(memIsDir(fs, newname))) &&
 //@                     !(old(memIsDir(fs, oldname)) && (old(kvHas(fs, newname)) || hasPrefix(newname, oldname + "/"))) && old(kvHas(fs, pdir(newname))) && !old(memIsDir(fs, pdir(newname))),
 //@                     linkErr(err, oldname, newname) && errIs(err, hackpadfs.ErrNotDir) && memSame(fs))
-//@   ensures "file-moved" [C01 C03] implies(rnValid(oldname, newname) && oldname != "." && old(rnSrcFile(fs, oldname)) && oldname != newname && !(old(kvHas(fs, newname)) && old(memIsDir(fs, newname))) && old(rnDestParentOK(fs, newname)),
+//@   ensures "file-moved" [C01 C03] implies(isMem(fs) && rnValid(oldname, newname) && oldname != "." && old(rnSrcFile(fs, oldname)) && oldname != newname && !(old(kvHas(fs, newname)) && old(memIsDir(fs, newname))) && old(rnDestParentOK(fs, newname)),
 //@                     err == nil && !kvHas(fs, oldname) && kvHas(fs, newname) && memSameExcept2(fs, oldname, newname) && isType(kvRec(fs, newname), mem.fileRecord) &&
 //@                     memRec(fs, newname).mode == old(memRec(fs, oldname).mode) && memRec(fs, newname).data == old(memRec(fs, oldname).data) && memRec(fs, newname).modTime == old(memRec(fs, oldname).modTime))
-//@   ensures "tree-file" [C03] implies(old(treeInv(fs)) && !old(rnSrcDir(fs, oldname)), treeInv(fs))
-//@   ensures "typed" [C05] implies(err != nil, isLinkError(err))
-//@   ensures "mem-world" world() == old(world())
-//@   ensures "inv" fsMem(fs)
+//@   ensures "tree-file" [C03] implies(isMem(fs) && old(treeInv(fs)) && !old(rnSrcDir(fs, oldname)), treeInv(fs))
+//@   ensures "typed" [C05] implies(isMem(fs) && err != nil, isLinkError(err))   // a failing plain store's own errors are passed on as they are (outside C05's failure situations)
+//@   ensures "mem-world" implies(isMem(fs), world() == old(world()))
+//@   ensures "gate-any-world" [C04 C05] implies(!VP(oldname) || !VP(newname), linkErr(err, oldname, newname) && errIs(err, hackpadfs.ErrInvalid) && world() == old(world()))
+//@   ensures "serial-source-lookup-error" [C14] implies(!isMem(fs) && VP(oldname) && VP(newname) && old(storeGetErr(fsStore(fs), oldname)) != nil, err != nil)
+//@   ensures "inv" fsOK(fs)
 //@   nopanic
 
 // ---- thin implementations of contracted interfaces: executed in place wherever the receiver type is known ----
